@@ -63,8 +63,6 @@ private:
   static void permuteCopy(const std::vector<Real>& A, const std::vector<size_t>& piv, std::vector<Real>& X)
   {
     size_t piv_length = piv.size();
-    if (piv_length != A.size())
-      X.clean();
 
     X.resize(piv_length);
 
@@ -379,9 +377,9 @@ public:
   {
     /* Dimensions: A is mxn, X is nxk, B is mxk */
 
-    if (b.dim1() != m)
+    if (b.size() != m)
     {
-      throw BadIntegerException("Wrong dimension in LU::solve", b.dim1());
+      throw BadIntegerException("Wrong dimension in LU::solve", static_cast<int>(b.size()));
     }
 
     Real minD = NumTools::abs<Real>(LU(0, 0));
